@@ -162,6 +162,12 @@ func (x *Exec) ctxMethod(s *State, m string, args []*Val, resT types.Type) *Val 
 		c := x.ctxConst("ExecMode", "Int")
 		s.assume(and(sx("<=", "0", c), sx("<", c, "256")))
 		return &Val{T: resT, S: c}
+	case "VoteInfos":
+		// the votes of the previous block: a fixed (per context) list, A-comet
+		srt := x.c.sortOf(resT)
+		c := x.ctxConst("VoteInfos", srt)
+		x.assumeInv(s, resT, c)
+		return x.valOf(s, resT, c)
 	case "EventManager", "Logger":
 		return &Val{T: resT, Tag: &Tag{Kind: tagOpaque, Field: m}}
 	case "Value", "Done", "Err", "Deadline":
